@@ -61,6 +61,7 @@ ssize_t __wrap_getrandom(void *buf, size_t len, unsigned flags)
     }
     if (s->perm_fail > 0 || (s->perm_fail < 0 && s->calls - s->armed_at == (uint64_t)(-s->perm_fail))) {
         s->perm++;
+        if (s->perm_observer) ++*s->perm_observer;
         errno = EIO;
         return -1;
     }
